@@ -11,6 +11,8 @@ names=${@:-$(cd $ROOT/seeded && ls -d C* | sort)}
 for n in $names; do
   prop=${n%%-*}; prop=${prop/x/}
   git -C $wt checkout -q -- . ; git -C $wt clean -fdq
+  base=$(python3 -c "import json;print(json.load(open('$ROOT/seeded/$n/meta.json')).get('base_commit',''))" 2>/dev/null)
+  if [ -n "$base" ]; then git -C $wt checkout -q --detach $base; else git -C $wt checkout -q --detach $(git -C /repo rev-parse HEAD); fi
   if ! git -C $wt apply $ROOT/seeded/$n/patch.diff 2>/dev/null; then echo "$n: patch does not apply"; continue; fi
   out=$(cd $ROOT && VERIF_REPO=$wt VERIF_EVIDENCE_DIR=/tmp/regress-ev VERIF_REPLAY_DIR=/tmp/regress-rp ./check $prop quick 2>&1); rc=$?
   n_v=$(echo "$out" | grep -c "^VIOLATION")
